@@ -1,3 +1,4 @@
 /- Aggregate: C19 pool-level limits (C19.lean) and string-copy failure / reference-count bounds at document level (C19Str.lean). -/
 import AJ.Props.C19
 import AJ.Props.C19Str
+import AJ.Props.C19Geo
